@@ -657,6 +657,11 @@ class Translator:
     def fn_class_qname(self, node):
         if node.get('_class_q'): return node['_class_q']
         q = self.fn_qname(node)
+        m_ = re.match(r"^(.*)::operator\s*(->\*?|<<=?|>>=?|<=>|[<>]=?|\(\)|\[\])$", q)
+        if m_: return m_.group(1)      # operators whose symbol contains < or > would upset the bracket matching below
+        k = q.find('::operator ')
+        if k > 0 and node.get('kind') == 'CXXConversionDecl':
+            return q[:k]          # conversion function: `cls::operator some::qualified::type`
         # strip template args on the last component then the last component
         depth = 0; i = len(q) - 1
         while i >= 0:
